@@ -99,16 +99,16 @@ def run(ctx, rep):
         a = [strip_ids(x) for x in event_args(g, an)]
         # the record: element of enumerate(into_iter(records returned by the loader))
         rec = a[1]
-        nxt = [n for n in P.calls(NEXT_RX) if contains(rec, lambda x: x == ("okval", strip_ids(("call", cpath(g.term(n)), tuple(event_args(g, n))))))]
+        src = element_iterator(g, P, event_args(g, an)[1])      # a `for` loop's next(), or an adaptor running a closure per element
         ok_iter = False
-        if nxt:
-            it = strip_ids(event_args(g, nxt[0])[0])
+        if src:
+            it = src[0]
             ok_iter = call_is(it, r"Iterator::enumerate$") and not contains(it, lambda x: call_is(x, r"Iterator::(filter|skip|take|rev|step_by|skip_while|take_while|filter_map)$"))
         if ok_iter:
-            rep.ok("R02.3", "replay iterates all loaded records in order", expr_s(strip_ids(event_args(g, nxt[0])[0]))[:80], where=g.where(nxt[0]))
+            rep.ok("R02.3", "replay iterates all loaded records in order", expr_s(src[0])[:80], where=g.where(src[1]))
         else:
             rep.violation("R02.3", "open|replay-iterator", "replay loop",
-                          "the replay loop does not iterate the complete record vector front to back: %s" % (expr_s(strip_ids(event_args(g, nxt[0])[0]))[:90] if nxt else "?"),
+                          "the replay loop does not iterate the complete record vector front to back: %s" % (expr_s(src[0])[:90] if src else "?"),
                           where=g.where(an))
         # chunk id + segment arguments
         cid, seg = a[2], a[3]
@@ -134,8 +134,42 @@ def run(ctx, rep):
                           "replay records index entries that differ from what the live write recorded (chunk_id ok=%s, segment ok=%s): after a "
                           "restart cache-miss reads look in the wrong place" % (cid_ok, seg_ok), where=g.where(an))
         # exactly one apply per record, error returns
-        if nxt:
-            nn = nxt[0]
+        is_loop = bool(src) and g.term(src[1])["k"] == "call" and cmatch(g.term(src[1]), NEXT_RX)
+        if src and not is_loop:
+            # adaptor style: the closure body is the loop body
+            subs = g.closure_insts.get(src[1], [])
+            ao = call_outcome(P, an)
+            for sub in subs:
+                starts = P.pnodes_of([(sub.id, 0)])
+                rets = {(sub.id, bi) for bi, blk in enumerate(sub.body["blocks"]) if not blk["cleanup"] and blk["term"]["k"] == "return"}
+
+                def stepc(ms, pi, qi, learn, sub=sub):
+                    cnt, err = ms
+                    if P.gnode(pi)[0] == sub.id and P.gnode(pi)[1] == 0 and (cnt or err):
+                        return None
+                    if P.gnode(pi) == an:
+                        cnt = min(cnt + 1, 2)
+                    if ao(pi, qi, learn) == "err":
+                        err = True
+                    return (cnt, err)
+                seenc = run_monitor(P, (0, False), stepc, starts=starts)
+                badc = None
+                for (pi, ms) in seenc:
+                    if P.gnode(pi) in rets:
+                        cnt, err = stepc(ms, pi, None, ()) or ms
+                        r0 = P.tags_after_block(pi).get((sub.id, 0, ()))
+                        is_err = bool(r0) and r0[0] in ("Err", "Break", "None")
+                        if (err and not is_err) or (not err and cnt != 1):
+                            badc = (pi, ms)
+                if badc:
+                    rep.violation("R02.3", "open|record-not-applied-exactly-once", "replay closure body",
+                                  "a loaded record can be skipped, applied twice, or its apply error ignored before the next record is taken",
+                                  where=g.where((sub.id, 0)), path=describe_path(P, [k[0] for k in path_to(seenc, badc)]))
+                else:
+                    rep.ok("R02.3", "replay loop body", "each record is applied exactly once; an apply error ends the iteration (Err result)",
+                           where=g.where((sub.id, 0)))
+        if is_loop:
+            nn = src[1]
             starts = learned_targets(P, lambda o, v: origin_call(o) == nn and v in OKV)
             ao = call_outcome(P, an)
 
